@@ -425,6 +425,12 @@ pub fn intern_drive(seed: u64, episodes: usize, len: usize, big: usize, out: &st
             } else if roll < 97 {
                 m = ev("opaque", "", "parse", -1, "");
                 let (t, registered) = *r.pick(&texts);
+                if r.chance(1, 3) {
+                    // first an input that ends inside open elements carrying declarations (refused): whatever the parser keeps
+                    // between calls, the bindings of a failed parse must not reach the next one
+                    let cut = *r.pick(&["<a xmlns='v1'><b>", "<r xmlns:zz='u1' xmlns='u1'><x>", "<a xmlns='http://e/1'>", "<q1:a xmlns:q1='v1' xmlns:n1='u1'><n1:b><c>"]);
+                    let _ = if r.chance(1, 2) { x.parse(cut).is_ok() } else { x.parse_fragment(cut).is_ok() };
+                }
                 let accepted = match r.below(3) {
                     0 => x.parse(t).is_ok(),
                     1 => x.parse_fragment(t).is_ok(),
